@@ -306,6 +306,11 @@ def core_units():
                  ensures=["r.name() =~= construct_expr_wrapper_name_spec(index, expr_index, internal_index)"]))
     u.append(fns(F_NC, fl))
 
+    # ------------------------------------------------------------------ From<..> for ActionExpr (used by the unit parsers' `.into()`)
+    for F, T, V in ((F_PE, "ProcessExpr", "Process"), (F_EE, "ErrExpr", "Err"), (F_IE, "InitialExpr", "Initial")):
+        u.append(raw("from_spec_%s" % T, "impl vstd::std_specs::convert::FromSpecImpl<%s> for ActionExpr {\n    open spec fn obeys_from_spec() -> bool { true }\n    open spec fn from_spec(v: %s) -> Self { ActionExpr::%s(v) }\n}\n" % (T, T, V)))
+        u.append(fns(F, [fn("from", "r", label="<ActionExpr as From<%s>>::from" % T, ensures=["r == ActionExpr::%s(val)" % V])],
+                     self_ty="ActionExpr", trait="From", header="impl From<%s> for ActionExpr" % T))
     u.append(raw("specs_members", _read("specs_members.rs")))
     return u
 
@@ -1040,6 +1045,10 @@ def builder_units():
         fn("members", "r", ensures=["r@ == self.members@"],
            subst=[{"find": "&[Self::Member]", "replace": "&[ExprGroup<ActionExpr>]", "why": "associated type of the Chain impl written out (type Member = ExprGroup<ActionExpr>)"}]),
         fn("len", "r", ensures=["r == self.members@.len()"]),
+        fn("remove_member", "r", ensures=["idx < old(self).members@.len() ==> r == Some(old(self).members@[idx as int]) && final(self).members@ == old(self).members@.remove(idx as int)",
+                                          "idx >= old(self).members@.len() ==> r is None && final(self).members@ == old(self).members@",
+                                          "final(self).ident == old(self).ident"],
+           subst=[{"find": "Option<Self::Member>", "replace": "Option<ExprGroup<ActionExpr>>", "why": "associated type of the Chain impl written out", "sig": True}]),
     ], self_ty="ActionExprChain", trait="Chain", header="impl ActionExprChain"))
     u.append({"kind": "resolved", "trait_file": "join_impl/src/chain/mod.rs", "trait_": "Chain", "method": "is_empty", "impl_file": F_CHAIN, "self_ty": "ActionExprChain",
               "name": "chain_is_empty", "ret": "r", "ensures": ["r == (this.members@.len() == 0)"]})
@@ -1366,7 +1375,7 @@ OBLIGATIONS = {
             ("core", "InitialExpr::replace_inner_exprs"), ("core", "ActionExpr::replace_inner_exprs"),
             ("gen", "JoinOutput::expand_process_expr"), ("gen", "JoinOutput::generate_def_and_step_streams"),
             # an initial value that binds looser than `.method()` is parenthesised (fix 0941b1e)
-            ("gen", "is_lower_precedence_than_method_call"),
+            ("gen", "is_lower_precedence_than_method_call"), ("core", "ActionExpr::from"),
             # in the async kinds the emitted method names get their documented meaning from the four extension traits the
             # expansion brings into scope (`use futures::{FutureExt, TryFutureExt, StreamExt, TryStreamExt}`)
             ("top", "JoinOutput::to_tokens")],
